@@ -382,7 +382,78 @@ loop:
 	return map[string]interface{}{"k": "fh", "id": id, "enabled": enabled, "ans": a, "res": res, "ticks": ticks, "calls": atomic.LoadInt32(&calls), "mon": mon}
 }
 
+// a sequence of chain-info answers, one per poll (the last one repeats): what reaches the event loop must be the answer of that very
+// poll — also when the reported height goes DOWN (a re-organisation onto a shorter branch, a lagging replica behind a load balancer):
+// the release test "height >= block height + level at that moment" is made against the height handed over here
+func verifWFetchHeightSeq(id int, answers []int32) map[string]interface{} {
+	w := &Watcher{chainIndex: &ChainIndex{FromGroup: 0, ToGroup: 0}, blockPollerEnabled: &atomic.Bool{}, pollIntervalMs: 2}
+	w.EnableBlockPoller()
+	var calls int32
+	served := make(chan int32, 4096)
+	get := func() (*int32, error) {
+		i := int(atomic.AddInt32(&calls, 1)) - 1
+		if i >= len(answers) {
+			i = len(answers) - 1
+		}
+		v := answers[i]
+		select {
+		case served <- v:
+		default:
+		}
+		return &v, nil
+	}
+	errC := make(chan error)
+	heightC := make(chan int32)
+	ctx, cancel := context.WithCancel(context.Background())
+	defer cancel()
+	pan := make(chan string, 1)
+	go func() {
+		defer verifWRecover(pan)
+		w._fetchHeight(ctx, zap.NewNop(), get, errC, heightC)
+	}()
+	got := []int32{}
+	want := []int32{}
+	res := "ok"
+loop:
+	for len(got) < len(answers) {
+		select {
+		case hgt := <-heightC:
+			got = append(got, hgt)
+			select {
+			case v := <-served:
+				want = append(want, v)
+			default:
+				want = append(want, -1)
+			}
+		case <-errC:
+			res = "fatal"
+			break loop
+		case p := <-pan:
+			res = "panic:" + p
+			break loop
+		case <-time.After(5 * time.Second):
+			res = "stall"
+			break loop
+		}
+	}
+	mon := []string{}
+	desc := fmt.Sprintf("_fetchHeight polling a node that reports the heights %v", answers)
+	for i := range got {
+		if got[i] != want[i] {
+			mon = append(mon, "C08|height-handed-over-is-not-the-polled-height|"+desc+fmt.Sprintf(": poll %d was answered %d but the event loop was handed %d (handed %v); an event of block height h and level L is released against this number while the chain is at %d", i+1, want[i], got[i], got, want[i]))
+			break
+		}
+	}
+	if res != "ok" {
+		mon = append(mon, "C09|height-not-handed-over|"+desc+": outcome "+res+fmt.Sprintf(" after %d of %d polls", len(got), len(answers)))
+	}
+	return map[string]interface{}{"k": "fhseq", "id": id, "answers": answers, "handed": got, "res": res, "mon": mon}
+}
+
 func verifWFetchHeightRows(out *verifWOut) {
+	for i, seq := range [][]int32{{12, 11, 12}, {100, 100, 99, 98, 120}, {5, 4, 3, 2, 1, 0}, {7, 2147483647, 7}, {0, 1, 0}} {
+		out.emit(verifWFetchHeightSeq(1000+i, seq))
+	}
 	id := 0
 	for rep := 0; rep < 3; rep++ {
 		for _, en := range []bool{false, true} {
